@@ -103,7 +103,26 @@ class USelf:
     keys = KEYS
 
 
-UNIVERSES = {u.name: u for u in (UTuple, USpec, USpecTyped, UList, USelf)}
+class UStrip:
+    name = "strip"  # hashable str items, key = item.strip(): includes FALSY items ("") and items equal to their own key
+    hashable = True
+    POOL = ["", " ", "a", " a", "b", " b", "c", " c", "d", " d"]
+    keys = ["", "a", "b", "c", "d"]
+
+    @staticmethod
+    def mk(ki, p):
+        return UStrip.POOL[2 * ki + p]
+
+    @staticmethod
+    def keyf(it):
+        return it.strip()
+
+    @staticmethod
+    def new(items, e):
+        return KeyedSet(items, key=UStrip.keyf, enforce_item_equivalence=e)
+
+
+UNIVERSES = {u.name: u for u in (UTuple, USpec, USpecTyped, UList, USelf, UStrip)}
 
 
 def same(a, b):
@@ -168,6 +187,8 @@ def make_step(uname, op, nmax, operand="keyed", bad=None):
                     assume(0 <= q1 <= 1)
                 it = U.mk(k1, q1)
                 key = U.keyf(it)
+                if U.hashable and it == key:
+                    byitem = False  # an item that equals its own key is resolved as a key
             if op == "add":
                 if bad == "item":
                     it = 12345 if uname != "self" else 12345
@@ -348,6 +369,9 @@ def obligations(tier):
     for op in ("or", "ior", "le", "isdisjoint"):
         obs.append(Ob(f"C14.tuple.{op}.set.n{nmax}", make_step("tuple", op, nmax, "set"), _warm(nmax), f"universe=tuple; binary op={op} against a built-in set of items; |set|<= {nmax}", expect={"ok"}, timeout=T))
     obs.append(Ob(f"C14.spec-typed.add.bad-item", make_step("spec-typed", "add", nmax, bad="item"), _warm(nmax), "KeyedSet[Item,str].add(<int>) must raise TypeError and change nothing", expect={"TypeError"}, timeout=T))
+    for op in UNARY + ("ior", "or", "isub"):
+        nm = nmax - 1 if op in ("ior", "or", "isub") else nmax  # everything is hashed here, i.e. enumerated by the solver
+        obs.append(Ob(f"C14.strip.{op}.n{nm}", make_step("strip", op, nm), _warm(nm), f"universe=strip (str items incl. the falsy item '', key=item.strip()); op={op}; |set|<= {nm}", expect={"ok"}, timeout=T))
     for op in ("add", "discard", "contains"):
         obs.append(Ob(f"C14.spec-typed.{op}.n{nmax}", make_step("spec-typed", op, nmax), _warm(nmax), f"KeyedSet[Item,str]; op={op}; conforming items", expect={"ok"}, timeout=T))
     return obs
